@@ -349,8 +349,11 @@ def main():
                        "delete_user / delete_role are two underlying management calls: one notification per successful one",
                        "async enforcer: ACL/RBAC histories, each call awaited; watcher.update() is a plain function as in casbin.persist.Watcher, only the update_for_* callbacks may be coroutine functions; the twin equality is C18",
                        "a refusing adapter returns False and stores nothing; what the enforcer keeps in memory after a refused call is outside this property"]
-    chk.trusted = ["hand-written models coq/theories/{Policy,RoleGraph,Mgmt}.v tied by the differential history correspondence"]
-    chk.build(oracle_name="Mgmt")
+    chk.trusted = ["hand-written models coq/theories/{Policy,RoleGraph,Mgmt}.v tied by the differential history correspondence",
+                   "translator translators/internal.py (casbin/internal_enforcer.py -> coq/gen/InternalGen.v, syntactic, fail-closed, regenerated "
+                   "on this run) + interpreter coq/theories/IntLang.v; InternalTie.v proves the regenerated internal API = Mgmt.v's i_* functions "
+                   "(results, rule lists, adapter calls, notifications) for every configuration; _update_filtered_policies not translated"]
+    chk.build(translators=["internal"], oracle_name="Mgmt")
     if chk.replay_file:
         import json
         c = (json.load(open(chk.replay_file)).get("case") or {})
